@@ -22,7 +22,7 @@ CHECKS = {
         "level": "Every conversion route and every delegation site is enumerated: all routes compose frombase(target) o tobase(source) with the "
                  "same lookup and un-swapped roles, container kind preserved, exponent route shaped root-convert-power; every higher route hands "
                  "own unit / requested unit / value in the right roles (including the category default converted from the category's default "
-                 "unit); the own-unit shortcut dominates every conversion, simple and derived; every re-expression constructor receives the "
+                 "unit, with the constant fallback reserved for a category info that has no default at all); the own-unit shortcut dominates every conversion, simple and derived; every re-expression constructor receives the "
                  "source's category or quantity. Three defects found by these rules were repaired in /repo.",
         "note": NOTE,
     },
@@ -75,7 +75,7 @@ CHECKS = {
                  "slot is in the constructor (memo slots in their getters), every mutator must-raises, no mutation sink of the library "
                  "reaches a composing map at the map or inner-list level (shallow copies are told apart from deep ones), captured maps "
                  "are fresh, ObtainQuantity interns every constructed object under a key mentioning all identity inputs, hash reads a "
-                 "subset of eq, copy hooks return self, pickle layout agrees between writer and reader.",
+                 "subset of eq, copy hooks return self, pickle layout agrees between writer and reader and None replaces the caption only where the caption is empty.",
         "note": NOTE,
     },
     "C08": {
@@ -102,7 +102,8 @@ CHECKS = {
                      "CFG dominance/must-raise for the length guard; definite-assignment dataflow; pass-through check of the pair generator",
         "level": "Structural necessary conditions of elementwise equality, for every container combination and length: both classes reach the same "
                  "database operation with operands on their own sides, once per generated pair; two iterated operands are length-checked "
-                 "before zipping; nothing read after the loop depends on the loop having run (empty operands); tuple-ness depends only on "
+                 "before zipping and every result for list/tuple operands is reached only through the iteration that runs that check (no shortcut "
+                 "for an empty operand); nothing read after the loop depends on the loop having run (empty operands); tuple-ness depends only on "
                  "iterated operands; the generator never coerces an operand; FromScalars and GetValues convert every element with the unit "
                  "they advertise. numpy's vectorised evaluation is trusted.",
         "note": NOTE,
@@ -151,7 +152,7 @@ CHECKS = {
                      "registry-owned containers; memo-coherence rule (fields read on a memo's fill path vs. writers that must clear it)",
         "level": "For every non-registration function of the library (all public queries, arithmetic, construction) the transitive write "
                  "set on registry state is empty; no registry-owned container that escapes through a getter reaches a mutation sink; "
-                 "each memo table is cleared by every registration method that writes a field its fill path reads (two interning "
+                 "each memo table is cleared by every registration method that writes a field its fill path reads - removing a single entry is not a clear - (two interning "
                  "incoherences that cannot be repaired without changing identity semantics are recorded findings). Covers every history "
                  "of queries, failures and registrations at once.",
         "note": NOTE,
@@ -170,7 +171,8 @@ CHECKS = {
         "level": "For every sequence of add / remove / select / template / default-unit calls: state is written only by its designated "
                  "methods, no raise follows a write (rejected calls change nothing), ids are unique and template coverage is checked before "
                  "registration, SetCurrent unregisters the old listener and registers the new one on every path and always fires on_current, "
-                 "automatic selection picks registered objects, notifications follow mutations, template mappings are deep-copied, "
+                 "automatic selection picks registered objects, notifications follow mutations and are reachable only through a statement that certainly changed the mapping, None is the only "
+                 "representation of 'no current system' (the null system is never stored), template mappings are deep-copied, "
                  "ConvertToCurrent has the right roles. Two design-level defects (unguarded SetCurrent, mapping kept by reference) are recorded findings.",
         "note": NOTE,
     },
@@ -180,8 +182,9 @@ CHECKS = {
                      "parts of a FractionValue against the affine rows of the interpreted table",
         "level": "Every arithmetic and order dunder of Fraction / FractionValue applies the matching operation on the denoted amount; "
                  "FractionScalar orders, validates and converts like Scalar; the number and the numerator are converted by two separate unit "
-                 "conversions while 7 table units have an offset - a refutation for those units, recorded as a finding. CreateFromFloat, "
-                 "the format/parse round trip and float exactness are not decided (they quantify over digit strings).",
+                 "conversions while 7 table units have an offset - a refutation for those units, recorded as a finding. The sign "
+                 "CreateFromFloat gives the fraction part is the sign of the value itself (not of its truncated integer part); the digits "
+                 "CreateFromFloat finds, the format/parse round trip and float exactness are not decided (they quantify over digit strings).",
         "note": NOTE,
     },
     "C19": {
@@ -197,7 +200,7 @@ CHECKS = {
                      "loop fixpoint over all abstract states); alphabet check of emitted separators and literals; def-use terms for the "
                      "fields of simple quantities and the unit shown by repr/str",
         "level": "All abstract states of the two builders are explored, so for any number of numerator and denominator factors and any "
-                 "exponents: every factor is preceded by a separator, sits on the correct side of the single '/', denominators render "
+                 "exponents: every factor is preceded by a separator and every separator by a factor, each factor sits on the correct side of the single '/', denominators render "
                  "unsigned exponents, and only the grammar's separators are emitted; the strings of simple quantities are the registered "
                  "category / quantity type / validated unit; repr/str show GetUnit() or the requested unit; the derived strings are built "
                  "from every entry of the composing map.",
